@@ -86,6 +86,71 @@ add("C09", "model_checking",
     "commutativity, additivity of sums, and the contracts of sum/max/abs/ceil/round/neg/shift/element-wise max-min.",
     "Unsupported operand combinations may raise; hourly subtraction only on equal indexes.")
 
+add("C08", "model_checking",
+    "Completeness: whole systems are executed with every numeric input as its own solver variable; for every (input, "
+    "calculated value) pair where the variable occurs in the value's terms or in a decision taken under the value's "
+    "update function, the input must be a transitive ancestor; a missing one is confirmed by a solver query (two values "
+    "of that input alone give different results) and by a concrete perturbation replay. Consistency (two-sided edges, "
+    "held endpoints, acyclicity, update order) is checked on the real graphs after builds, edits and simulations on "
+    "every explored path, and attr_updates_chain on all DAGs with <= 5 nodes.",
+    "The consistency half is a graph traversal on the states the engine reaches (no arithmetic to decide).")
+add("C11", "model_checking",
+    "Symbolic execution of convert_to_utc / update_utc_hourly_usage_journey_starts with one solver variable per local "
+    "hour on concrete (zone, start, length): each output cell is literally the sum of the inputs that landed there; z3 "
+    "decides total preservation and per-stamp placement against an oracle that localises every stamp on its own from "
+    "the zone's transition table.",
+    "Zones and dates are enumerated, not symbolic: quick 25 zones x their 2023-2027 transitions; thorough all pytz zones "
+    "x 2000-2030. For repeated/skipped local hours the oracle accepts any admissible merge target (see DESIGN).")
+add("C13", "model_checking",
+    "Symbolic execution of system_to_json -> json_to_system at the dict level with symbolic inputs (hourly inputs k/1000 "
+    "with k a symbolic integer): z3 decides equality of every input value, of every recomputed result of the loaded "
+    "system, and of the second export; identifiers, classes, links, labels and sources are compared concretely; edits on "
+    "the loaded system are compared with a fresh build; a file of the previous major version is loaded.",
+    "JSON text layer outside; float() in to_json stubbed as identity on proxies.")
+add("C14", "model_checking",
+    "Construction and assignment are executed with a symbolic offending magnitude: z3 decides that every accepted value "
+    "is non-negative (unless negatives are meaningful) and that refusals by sign validation happen only for negative "
+    "values; wrong dimensions, wrong types, wrong-class list members and values outside allowed lists are enumerated per "
+    "class/parameter; after every refused assignment a full snapshot comparison (identity, values, graph, links).",
+    "Classes and parameters enumerated from ALL_EFOOTPRINT_CLASSES signatures; kinds of wrong type enumerated.")
+add("C15", "model_checking",
+    "The failing edit is found by the solver: the new value is symbolic and the raising branches of the server/storage "
+    "update functions are reached as feasible decisions; on every raising path the previous value is re-assigned and "
+    "the model is compared with the pre-edit snapshot (solver-checked values), then a further valid edit is compared "
+    "with a system built from scratch; repeated failures included.",
+    "Sequences: fail-recover and fail-fail-recover, one follow-up edit.")
+add("C16", "exploration",
+    "Bounded exhaustive exploration steered by the engine: list operations (assign, append, insert, extend, +=, *=, "
+    "pop, remove, del, item/slice assignment, clear) on the four list links, with index and repeat-count arguments as "
+    "integer proxies forked over every solver-feasible value; after each operation the list content is compared with a "
+    "plain-list mirror and every reverse look-up with what the harness recomputes from forward links only; link "
+    "re-pointing, self_delete and cross-system linking likewise.",
+    "No arithmetic content: the solver only enumerates the integer arguments; every obligation is a concrete comparison.",
+    technique="engine-steered bounded exploration of list/link operations (integer arguments forked by z3), concrete link-consistency oracle")
+add("C17", "model_checking",
+    "Differential symbolic execution, builder model vs plain model: numeric builder parameters and traffic are solver "
+    "variables; the plain model carries the derived parameters as inputs and the service's base consumption on the "
+    "server; z3 decides equality of server/storage/network/usage-pattern/system results per hour and the stated "
+    "derivation rules; after editing a builder input the live model is compared with a fresh build.",
+    "Categorical choices (resolutions, ecobenchmark rows, ecologits models, Boavizta instances) enumerated/sampled.")
+add("C18", "model_checking",
+    "After building (and after a depth-1 edit) every object is recomputed alone, in ordered pairs, through the full "
+    "chain, the chain reversed and System.after_init() again; str/explain/to_json/system_to_json and the aggregate views "
+    "are read; after each step a snapshot comparison decides (by z3 where values are symbolic) that every calculated "
+    "value and every input kept its physical value.",
+    "Plotting outside; initial_total_* bookkeeping re-recorded by after_init is not a result.")
+add("C19", "model_checking",
+    "Differential symbolic execution across configurations of the same model: all permutations of order-irrelevant "
+    "lists, other creation orders, other identifier assignments, and set iteration order as an explored engine choice "
+    "(one global ranking of objects, positions forked); z3 decides equality of every calculated attribute with the "
+    "reference build; real processes with different PYTHONHASHSEED are compared numerically.",
+    "Set-order differences are reported only when a bounded search over real identifiers reproduces them.")
+add("C20", "model_checking",
+    "Symbolic execution of time_builders with symbolic values, volumes, hours and active days (integer proxies forked "
+    "over 0..23 / 0..6 / 1..31 / 1..366) on concrete start dates and spans; z3 decides every cell against a pandas-free "
+    "datetime oracle (Ite over the symbolic hour/day sets), length, contiguity and unit are compared concretely.",
+    "Start dates/spans enumerated; linear/sinusoidal/daily fluctuation helpers: time line only (numpy kernels).")
+
 NA_REASONS = {}
 
 
